@@ -514,6 +514,23 @@ struct channel_multiplier_unsigned {
     using result_type = ChannelValue;
     auto operator()(ChannelValue a, ChannelValue b) const -> ChannelValue
     {
+        return apply(a, b, detail::is_channel_integral<ChannelValue>());
+    }
+
+private:
+    // Integral channels (up to 32 bits): a * b fits in uintmax_t, so the quotient is exact.
+    // Going through double rounds a / max before multiplying, which made the result depend
+    // on the argument order and fall a whole unit short of a * b / max.
+    static auto apply(ChannelValue a, ChannelValue b, std::true_type) -> ChannelValue
+    {
+        using base_t = typename base_channel_type<ChannelValue>::type;
+        return ChannelValue(static_cast<base_t>(
+            static_cast<uintmax_t>(a) * static_cast<uintmax_t>(b)
+            / static_cast<uintmax_t>(channel_traits<ChannelValue>::max_value())));
+    }
+
+    static auto apply(ChannelValue a, ChannelValue b, std::false_type) -> ChannelValue
+    {
         return ChannelValue(static_cast<typename base_channel_type<ChannelValue>::type>(a / double(channel_traits<ChannelValue>::max_value()) * b));
     }
 };
